@@ -114,8 +114,11 @@ pub fn gen_matrix(rng: &mut Rng, ring: &str) -> Value {
             // "phase-3 heavy": every row starts in column 0 (so the first sequential phase finds one
             // pivot), rows are dense enough that the second sequential phase occupies all columns
             // after a few picks; the remaining rows race in the parallel cycle-free search.
-            let (m, n) = (6 + rng.below(19) as usize, 5 + rng.below(16) as usize);
-            let dens = *rng.pick(&[20u64, 35, 50]);
+            // size is a knob too: one phase-3 run in eight leaves far more than 64 rows to the
+            // parallel phase (chunked / batched variants of the loop only differ beyond such sizes)
+            let big = rng.chance(1, 8);
+            let (m, n) = if big { (70 + rng.below(90) as usize, 10 + rng.below(30) as usize) } else { (6 + rng.below(19) as usize, 5 + rng.below(16) as usize) };
+            let dens = if big { *rng.pick(&[10u64, 20, 30]) } else { *rng.pick(&[20u64, 35, 50]) };
             let head_unit = rng.chance(1, 3);
             for i in 0..m {
                 entries.push(json!([i, 0, gen_val(rng, ring, if head_unit { 1 } else { 3 })]));
